@@ -71,7 +71,7 @@ ENGINE_ASSUME = [
 PROPS: dict[str, dict] = {}
 
 
-def engine_prop(pid, monitors, fields, ops, results=False, quick=320, thorough=16000, profile=None,
+def engine_prop(pid, monitors, fields, ops, results=False, quick=960, thorough=24000, profile=None,
                 technique='', note=''):
     if not os.path.exists(os.path.join(fw.LEAN, 'PK', 'Audit', f'{pid}.lean')):
         return      # no theorem yet: not claimed
